@@ -43,30 +43,51 @@ def r1_atom_parser(ctx):
     fn = ctx.fn(US, "AtomParser")
     p = fn.args.args[0].arg
     body = fn.body
-    # (a) number literal only through an anchored regular expression
-    first = body[0]
-    ok = isinstance(first, ast.If) and isinstance(first.test, ast.NamedExpr) and isinstance(first.test.value, ast.Call) \
-        and dotted_name(first.test.value.func) == "re.match"
-    pat = None
-    if ok:
-        try:
-            pat = Evaluator(ctx.repo, ctx.repo.module(US)).ev(first.test.value.args[0])
-        except AnalysisError:
-            pat = None
-    if not ok or not isinstance(pat, str):
-        floats = [n for n in ast.walk(fn) if isinstance(n, ast.Call) and dotted_name(n.func) == "float"]
-        guarded = False
-        ctx.check(guarded if floats else True, US, "AtomParser", "numeric factor is accepted only through an anchored regular expression",
-                  detail="float(<text>) without a dominating anchored re.match" if floats else None,
-                  expected="float() alone also accepts '1_0', 'nan', 'inf', 'infinity'")
+    # (a) number literal only through an anchored regular expression: on every path that returns a unit-less
+    #     Atom(float(<input>)) a successful re.match of str(<input>) against an anchored numeric pattern was tested
+    from ..flowexpr import paths as _paths
+    S = p
+    num_paths, guards, unguarded = 0, set(), []
+    for q in _paths(fn):
+        fl = [i for i, e in enumerate(q.events) if e.resolved is not None and any(isinstance(c, ast.Call) and dotted_name(c.func) == "float" and S in norm(c)
+                                                                                 for c in ast.walk(e.resolved))]
+        if not fl:
+            continue
+        num_paths += 1
+        before = [e for e in q.events[:fl[0] + 1] if e.kind == "test"]
+        found = None
+        for t in before:
+            r = t.resolved
+            neg = isinstance(r, ast.UnaryOp) and isinstance(r.op, ast.Not)
+            if neg:
+                r = r.operand
+            if isinstance(r, ast.Compare) and len(r.ops) == 1 and isinstance(r.ops[0], (ast.Is, ast.IsNot)) and isinstance(r.comparators[0], ast.Constant) and r.comparators[0].value is None:
+                neg = neg != isinstance(r.ops[0], ast.Is)
+                r = r.left
+            if isinstance(r, ast.Call) and dotted_name(r.func) in ("re.match", "re.fullmatch") and len(r.args) == 2 and norm(r.args[1]) in (f"str({S})", S) \
+                    and t.extra == (not neg):
+                try:
+                    found = (dotted_name(r.func), Evaluator(ctx.repo, ctx.repo.module(US)).ev(r.args[0]))
+                except AnalysisError:
+                    found = ("?", None)
+        if found is None:
+            unguarded.append([norm(t.resolved)[:60] for t in before])
+        else:
+            guards.add(found)
+    if num_paths == 0:
+        ctx.unrecognised(US, "AtomParser", "numeric factor is accepted only through an anchored regular expression", "no float(<input>) conversion found")
+    elif unguarded and all(not u for u in unguarded):
+        ctx.violated(US, "AtomParser", "numeric factor is accepted only through an anchored regular expression",
+                     detail="float(<text>) without a dominating anchored re.match", expected="float() alone also accepts '1_0', 'nan', 'inf', 'infinity'")
+    elif unguarded or any(g[1] is None for g in guards):
+        ctx.unrecognised(US, "AtomParser", "numeric factor is accepted only through an anchored regular expression", f"guarding tests not interpreted: {unguarded[:1]}")
     else:
-        anch = pat.startswith("^") and pat.endswith("$")
-        alphabet = set(_re.sub(r"\\.", "", pat)) - set("^$()[]|?+*{}\\")
-        ctx.check(anch and alphabet <= set("0123456789.e+-"), US, "AtomParser", "number literal pattern is anchored and numeric",
-                  detail=pat, expected="^...$ over digits . e + -")
-        fl = [norm(s) for s in first.body]
-        ctx.form(any("float(" in s for s in fl) and any(s.startswith("return Atom(") and s.endswith(", {})") for s in fl), US,
-                  "AtomParser", "a number becomes a factor without units", detail=fl)
+        for kind, pat in sorted(guards):
+            anch = kind == "re.fullmatch" or (pat.startswith("^") and pat.endswith("$"))
+            alphabet = set(_re.sub(r"\\.", "", pat)) - set("^$()[]|?+*{}\\")
+            ctx.check(anch and alphabet <= set("0123456789.e+-"), US, "AtomParser", "number literal pattern is anchored and numeric",
+                      detail=pat, expected="^...$ over digits . e + -")
+        ctx.holds(US, "AtomParser", "a number becomes a factor without units", detail=f"{num_paths} path(s)")
     _residual_text(ctx, fn, p)
 
 
@@ -761,9 +782,12 @@ def r7_render_read(ctx):
         if isinstance(n, ast.Call) and dotted_name(n.func) == "re.search":
             pat = Evaluator(ctx.repo, ctx.repo.module(US)).ev(n.args[0])
     m = _re.match(r"^\[([^\]]+)\]\+\$$", pat or "")
-    ok = bool(m) and set("0123456789") <= _expand_class(m.group(1)) and frac in _expand_class(m.group(1)) and "-" in _expand_class(m.group(1))
-    ctx.check(ok, US, "AtomParser", "exponent character class accepts digits, '-' and the fraction symbol the renderer emits",
-              detail=pat, expected=f"[0-9{frac}+-]+$")
+    if not m:
+        ctx.unrecognised(US, "AtomParser", "exponent character class accepts digits, '-' and the fraction symbol the renderer emits", f"exponent pattern not found / not a character class: {pat!r}")
+    else:
+        ok = set("0123456789") <= _expand_class(m.group(1)) and frac in _expand_class(m.group(1)) and "-" in _expand_class(m.group(1))
+        ctx.check(ok, US, "AtomParser", "exponent character class accepts digits, '-' and the fraction symbol the renderer emits",
+                  detail=pat, expected=f"[0-9{frac}+-]+$")
     fn = ctx.fn(FR, "Fraction.__str__")
     s = norm(fn)
     ctx.form("return f'{self.num}{SYMBOL_FRACTION}{self.den}'" in s and "return str(self.num)" in s, FR, "Fraction.__str__",
